@@ -100,6 +100,14 @@ class Result(object):
 
     # -- finish
     def finish(self):
+        for h in HANGS:
+            self.violation({"kind": "hang", "fn": h.fn},
+                           {"item": h.item, "interrupted_after_s": h.seconds,
+                            "where": h.where,
+                            "fail": "library call did not return (no yield "
+                                    "to the scheduler) and was interrupted"},
+                           {"hang": h.item})
+        del HANGS[:]
         cov = self.coverage
         cov["distinct_outcomes"] = len(self._outcomes)
         if not cov.get("distinct_nontrivial"):
@@ -176,20 +184,80 @@ def workers():
         return 4
 
 
+class Hang(BaseException):
+    """Raised inside a work item by the per-item watchdog timer."""
+
+
+class Hung(object):
+    """Marker result of a work item that had to be interrupted."""
+
+    def __init__(self, fn, item, seconds, where):
+        self.fn, self.item, self.seconds, self.where = fn, item, seconds, \
+            where
+
+
+HANGS = []          # Hung markers collected by pmap in the parent process
+
+
+def item_timeout():
+    return float(os.environ.get("VERIF_ITEM_TIMEOUT", "900"))
+
+
 def _call(args):
-    fn, item = args
-    return fn(item)
+    """Run one work item under a watchdog: library code that loops without
+    ever yielding to the harness cannot be caught by a step budget, so a real
+    timer interrupts it and the item is reported as hung."""
+    import signal
+    import traceback
+    fn, item, limit = args
+    state = {"fired": None}
+
+    def on_alarm(sig, frame):
+        if state["fired"] is None:
+            state["fired"] = ["%s:%d %s" % (os.path.basename(f.filename),
+                                            f.lineno, f.name)
+                              for f in traceback.extract_stack(frame)[-6:]]
+        # the harness may turn the exception into an outcome and go on; the
+        # timer keeps firing until the item returns
+        raise Hang()
+    try:
+        old = signal.signal(signal.SIGALRM, on_alarm)
+    except ValueError:          # not the main thread
+        return fn(item)
+    signal.setitimer(signal.ITIMER_REAL, limit, 5.0)
+    try:
+        r = fn(item)
+    except Hang:
+        r = None
+    finally:
+        signal.setitimer(signal.ITIMER_REAL, 0)
+        signal.signal(signal.SIGALRM, old)
+    if state["fired"] is not None:
+        return Hung(getattr(fn, "__name__", repr(fn)), repr(item)[:300],
+                    limit, state["fired"])
+    return r
 
 
-def pmap(fn, items, chunksize=None):
+def pmap(fn, items, chunksize=None, timeout=None):
     """Ordered parallel map over a fork pool (results in input order, so
-    output never depends on timing)."""
+    output never depends on timing).  Items interrupted by the watchdog are
+    left out of the result and recorded in HANGS; Result.finish() turns each
+    into a violation."""
     items = list(items)
     n = workers()
+    limit = timeout or item_timeout()
     if n <= 1 or len(items) <= 1:
-        return [fn(i) for i in items]
-    ctx = multiprocessing.get_context("fork")
-    if chunksize is None:
-        chunksize = max(1, len(items) // (n * 8))
-    with ctx.Pool(n) as pool:
-        return pool.map(_call, [(fn, i) for i in items], chunksize)
+        raw = [_call((fn, i, limit)) for i in items]
+    else:
+        ctx = multiprocessing.get_context("fork")
+        if chunksize is None:
+            chunksize = max(1, len(items) // (n * 8))
+        with ctx.Pool(n) as pool:
+            raw = pool.map(_call, [(fn, i, limit) for i in items], chunksize)
+    out = []
+    for r in raw:
+        if isinstance(r, Hung):
+            HANGS.append(r)
+        else:
+            out.append(r)
+    return out
